@@ -115,7 +115,7 @@ def run_program(spec: dict[str, Any], col: common.Collector, *, variant: bool = 
                 col.histo("trusted_base_disagreements",
                           f.stage + ":" + "+".join(sorted(sigs)))
                 return None
-        site = common.exc_site(f.exc) if f.exc is not None else "gcc"
+        site = common.exc_site(f.exc) if f.exc is not None else gcc_error_class(f.detail)
         col.violation(f"C01:codegen:{f.stage}:{type(f.exc).__name__ if f.exc else 'gcc'}@{site}",
                       f"code generation failed at stage {f.stage} for an in-fragment program: "
                       f"{str(f.exc)[:200] if f.exc else f.detail[-300:]}", wit)
@@ -216,10 +216,12 @@ def run_program(spec: dict[str, Any], col: common.Collector, *, variant: bool = 
                               {**wit, "vset": use_vs, "output": name,
                                "diff": compare.describe_diff(it.outputs()[name], want_c)})
             elif not ok:
-                if iok and tb_sig:
+                if (iok or iok is None) and tb_sig:
                     # kernel is right, binary is wrong, and the kernel contains a construct
                     # the trusted base (loopy's C printer) is known to mistranslate
-                    col.histo("trusted_base_disagreements", "+".join(sorted(tb_sig)))
+                    col.histo("trusted_base_disagreements" if iok else
+                              "trusted_base_disagreements_unconfirmed_by_interpreter",
+                              "+".join(sorted(tb_sig)))
                 else:
                     key = classify_value(spec, name, got, want_c)
                     col.violation(key, f"output {name} differs from NumPy beyond tolerance"
@@ -230,6 +232,24 @@ def run_program(spec: dict[str, Any], col: common.Collector, *, variant: bool = 
                                    "diff": compare.describe_diff(got, want_c)})
         result["outputs"][use_vs] = rr.outputs
     return result
+
+
+def gcc_error_class(detail: str) -> str:
+    """First gcc error message, without positions, names and typedef aliases."""
+    import re
+    m = re.search(r"error: ([^\n]*)", detail)
+    if not m:
+        return "gcc"
+    msg = m.group(1)
+    msg = re.sub(r"\{aka[^}]*\}", "", msg)
+    msg = re.sub(r"[‘’'`]", "", msg)
+    msg = re.sub(r"\b(u?int\d+_t|long int|long unsigned int|int|long|unsigned)\b", "INT", msg)
+    msg = re.sub(r"\b(complex double|complex float)\b", "COMPLEX", msg)
+    msg = re.sub(r"\b(double|float)\b", "FLOAT", msg)
+    msg = re.sub(r"\b[A-Za-z_]*\d+[A-Za-z_0-9]*\b", "N", msg)
+    msg = re.sub(r"\s+", " ", msg).strip()
+    msg = msg.replace(" )", ")").replace("( ", "(")
+    return msg[:60]
 
 
 def trusted_base_signatures(t_unit: Any) -> set[str]:
